@@ -359,12 +359,16 @@ impl Database {
     }
 }
 
-/// Scanning a segment that is not filled to its last byte ends at the truncation marker (zeroes)
-/// behind its last record.
+/// Scanning a segment that is not filled to its last byte ends behind its last record, at the
+/// truncation marker (zeroes) or at what a truncated write left there: the same end of the valid
+/// data that `seglog::write::Writer::open` found while the segment was the live one.
 fn is_end_of_data(err: &ReadError) -> bool {
     matches!(
         err,
-        ReadError::Reader(seglog::read::ReadError::TruncationMarker { .. })
+        ReadError::Reader(
+            seglog::read::ReadError::TruncationMarker { .. }
+                | seglog::read::ReadError::Crc32cMismatch { .. }
+        )
     )
 }
 
